@@ -195,6 +195,10 @@ let parse_addr_tok (t : string) : addr =
       if v = "4" then V4 (ip, port) else V6 (ip, port)
   | _ -> fail "bad addr %S" t
 
+(* gossip loop (C19) *)
+let lstate = ref ls_init
+let ltrace : action list ref = ref []
+
 let node_at (i : int) : node =
   match List.nth_opt !world.w_nodes i with Some n -> n | None -> fail "no node %d" i
 
@@ -373,6 +377,45 @@ let exec (c : cursor) : outcome =
       Obs (Printf.sprintf "valid %d dead %d seed %d draws %d" (if valid then 1 else 0)
              (if sel.sel_dead_decided then 1 else 0) (if sel.sel_seed_decided then 1 else 0)
              (int_of_nat sel.sel_draws_used))
+  | "LEV" ->
+      let ev =
+        match next c with
+        | "tick" -> Some ETick
+        | "recv" -> (
+            match next c with
+            | "syn" ->
+                let same = next_int c <> 0 in
+                let k = next_n c in
+                Some (ERecv (KSyn (same, k), false))
+            | "synack" -> Some (ERecv (KSynAck (next_n c), false))
+            | "ack" -> Some (ERecv (KAck, false))
+            | "badcluster" -> Some (ERecv (KBadCluster, false))
+            | t -> fail "bad recv kind %S" t)
+        | "recvskipped" -> Some ERecvSkipped
+        | "recvfatal" -> Some ERecvFatal
+        | "cmdgossip" -> Some ECmdGossip
+        | "userlock" -> Some EUserLock
+        | "shutdown" -> Some ECmdShutdown
+        | "finalshutdown" -> None
+        | t -> fail "bad loop event %S" t
+      in
+      (match ev with
+       | None ->
+           (* a shutdown request always completes; the whole micro-trace respected the lock discipline *)
+           Obs (if discipline N0 !ltrace then "shutdown-completed" else "shutdown-completed-but-lock-discipline-broken")
+       | Some e ->
+           let s', acts = step0 !lstate e in
+           lstate := s';
+           (* the harness itself takes the lock after every event to read the heartbeat *)
+           ltrace := !ltrace @ acts @ [ AUserLock; AUserUnlock ];
+           let sends = List.filter_map (fun a -> match a with ASend k -> Some k | _ -> None) acts in
+           let kind = function OSyn -> "syn" | OSynAck -> "synack" | OAck -> "ack" | OBadCluster -> "badcluster" in
+           Obs (Printf.sprintf "stopped %s hb %s sends %d%s lockviol 0"
+                  (match s'.ls_stopped with None -> "none" | Some LOk -> "ok" | Some LErr -> "err" | Some LPanicked -> "panicked")
+                  (string_of_n (N.add (Npos XH) s'.ls_hb_incs))
+                  (List.length sends)
+                  (String.concat "" (List.map (fun k -> " " ^ kind k) sends))))
+  | "UDP" -> Obs "answered 1 running 1 heartbeating 1 shutdown 1"
   | "DECODE" ->
       let b = next_hex c in
       let _ = parse_tail c in
@@ -416,6 +459,7 @@ let () =
          skipping := false;
          no_events := false;
          Hashtbl.reset lsubs; Hashtbl.reset lcalls;
+         lstate := ls_init; ltrace := [];
          Monitor.reset_case ();
          mon_nodes := 0;
          incr n_cases
